@@ -435,7 +435,7 @@ pub fn run(tier: Tier, seed: u64) -> Report {
     r.explore("version_names", tier.pick(5_000, 200_000), 40, &|t, rc| version_name(t, rc));
     // bombs in child processes
     if !r.failed() {
-        let depths: Vec<usize> = tier.pick(vec![64, 200, 1000, 100_000], vec![16, 64, 128, 200, 255, 256, 257, 1000, 10_000, 100_000, 1_000_000]);
+        let depths: Vec<usize> = tier.pick(vec![64, 200, 1000, 1400, 2000, 100_000], vec![16, 64, 128, 200, 255, 256, 257, 500, 1000, 1400, 2000, 3000, 10_000, 100_000, 1_000_000]);
         let bs = bombs(&depths);
         let inputs: Vec<Vec<u8>> = bs.iter().map(|b| b.1.clone()).collect();
         let mut st = crate::runner::Stats::default();
